@@ -197,7 +197,7 @@ pub fn c04(quick: bool, seed: u64) -> Outcome {
         "proptest histories of 1..200 ops: note-on (v>=1), note-off, note-on velocity 0, All-Notes-Off, priority / retrigger switches, foreign-channel and unsupported messages, real-time bytes; notes 70% from a per-case pool of 1-6 numbers (collisions, duplicates, stray releases), 30% uniform; all 16 channels (and channel arguments > 15); running status used at random where legal. After every complete message gate(), note_num(), velocity() are compared with the reference model. non-trivial = history with a release out of press order, or a duplicate note-on, or a note-off for a note not held, or All-Notes-Off with >= 2 held, AND a priority other than Last in force at some point; distinct by hash",
     );
     o.assumptions.push(MODEL_NOTE.into());
-    let cases = if quick { 40_000 } else { 2_000_000 };
+    let cases = if quick { 200_000 } else { 2_000_000 };
     let part = pt_run("midi_model", case_c04, cases, seed, 4, 8000, |c, st| run_case(c, C04, st).map(|i| i.nontrivial));
     o.absorb(part);
     o
@@ -208,7 +208,7 @@ pub fn c05(quick: bool, seed: u64) -> Outcome {
         "proptest histories of 1..120 ops as for C04 plus rising/falling/both edge polls at arbitrary positions; every poll result is compared with the model's two latches (rising: set by a note-on that finds the gate low or arrives in retrigger mode, cleared when the gate drops or when read; falling: set when the gate goes high->low by any cause, cleared by a note-on or when read) and the implications rising=>gate, falling=>!gate are checked. non-trivial = history with >= 1 gate fall, >= 1 poll after >= 2 messages since the previous poll, and one of {All-Notes-Off while the gate is high, stray note-off while the gate is low, note-on in retrigger mode while the gate is high}; distinct by hash",
     );
     o.assumptions.push(MODEL_NOTE.into());
-    let cases = if quick { 40_000 } else { 2_000_000 };
+    let cases = if quick { 300_000 } else { 2_000_000 };
     let part = pt_run("midi_model", case_c05, cases, seed, 5, 8000, |c, st| run_case(c, C05, st).map(|i| i.nontrivial));
     o.absorb(part);
     o
@@ -219,7 +219,7 @@ pub fn c06(quick: bool, seed: u64) -> Outcome {
         "three generators: (a) 0..400 unstructured bytes from weighted classes {data, status on the listened channel, other status, real-time, system common/SysEx}; (a') structured streams (notes, controllers, bend, foreign-channel and unsupported messages, real-time, SysEx, system common, truncated messages, raw bytes) flattened to bytes with running status; both are checked after EVERY byte: all eleven pure getters (and the edge getters at generated poll positions) of the receiver fed the raw stream must equal those of a second receiver fed only the canonical (explicit status) supported listened-channel messages that an independent MIDI 1.0 decoder finds in the stream; parse() must not panic (debug assertions on). (b) metamorphic, decoder-free: a well-formed stream vs the same stream with real-time bytes inserted at arbitrary byte offsets and complete foreign-channel / unsupported messages inserted before explicit-status messages: identical getters after every original message. non-trivial = stream in which >= 1 supported listened-channel message completes and which contains running status, a real-time byte inside a message, an aborted partial message, SysEx or a system-common byte (for (b): >= 1 own message and an insertion inside a message or a foreign message); distinct by hash",
     );
     o.assumptions.push("framing reference = MIDI 1.0: real-time bytes transparent, a status byte aborts a partial message, running status for 0x80-0xEF, any 0xF0-0xF7 cancels running status, data bytes without status are dropped; streams that would hold > 32 outstanding note-ons are truncated and counted".into());
-    let (n1, n2, n3) = if quick { (30_000, 30_000, 20_000) } else { (1_500_000, 1_500_000, 1_000_000) };
+    let (n1, n2, n3) = if quick { (150_000, 150_000, 100_000) } else { (1_500_000, 1_500_000, 1_000_000) };
     let part = pt_run("midi_stream", stream_case_raw, n1, seed, 6, 8000, |c, st| run_stream(c, st).map(|i| i.nontrivial));
     o.absorb(part);
     let part = pt_run("midi_stream", stream_case_structured, n2, seed, 61, 8000, |c, st| run_stream(c, st).map(|i| i.nontrivial));
@@ -231,14 +231,14 @@ pub fn c06(quick: bool, seed: u64) -> Outcome {
 
 pub fn c18(quick: bool, seed: u64) -> Outcome {
     let mut o = Outcome::new(
-        "complete generator: 16 listened channels x 128 controller numbers x 128 values on the listened channel and on a foreign channel, each from a non-default prior state (every routed controller set, pitch bend moved, a note held; prior values vary with the cell; quick tier: 4 seed-chosen listened channels), 16 x 16384 pitch-bend values LSB first (quick: 4 channels) interleaved with foreign-channel bends, value-axis scaling of the five continuous controllers; oracle = controller map of the statement (value/127 bit-exact, switches value>=64, 121 restores the power-on getters, everything else changes nothing; every number except 123 leaves gate/note/velocity/edges alone). Plus proptest histories interleaving controllers, bend, notes and foreign traffic against the receiver model. non-trivial = every cell of the complete generator on the listened channel (distinct by construction) + distinct histories containing both controller/bend and note traffic",
+        "complete generator: 16 listened channels x 128 controller numbers x 128 values on the listened channel and on a foreign channel, each from a non-default prior state (every routed controller set, pitch bend moved, a note held; prior values vary with the cell; quick tier: 8 seed-chosen listened channels), 16 x 16384 pitch-bend values LSB first (quick: 8 channels) interleaved with foreign-channel bends, value-axis scaling of the five continuous controllers; oracle = controller map of the statement (value/127 bit-exact, switches value>=64, 121 restores the power-on getters, everything else changes nothing; every number except 123 leaves gate/note/velocity/edges alone). Plus proptest histories interleaving controllers, bend, notes and foreign traffic against the receiver model. non-trivial = every cell of the complete generator on the listened channel (distinct by construction) + distinct histories containing both controller/bend and note traffic",
     );
     o.assumptions.push(MODEL_NOTE.into());
     let mut mix = Mix(seed ^ 0xC18);
     let mut chans: Vec<u8> = (0..16).collect();
     if quick {
         let mut pick = vec![];
-        while pick.len() < 4 {
+        while pick.len() < 8 {
             let c = mix.below(16) as u8;
             if !pick.contains(&c) {
                 pick.push(c);
@@ -280,7 +280,7 @@ pub fn c18(quick: bool, seed: u64) -> Outcome {
         o.exhaustive = true;
         o.exhaustive_note = "16 channels x 128 controllers x 128 values (listened + one foreign channel each) and 16 x 16384 pitch-bend values; prior states and interleavings with note traffic are sampled".into();
     }
-    let cases = if quick { 20_000 } else { 1_000_000 };
+    let cases = if quick { 150_000 } else { 1_000_000 };
     let part = pt_run("midi_model", case_c18, cases, seed, 18, 8000, |c, st| run_case(c, C18, st).map(|i| i.nontrivial));
     o.absorb(part);
     o.stats.samples.push(json!({"cell": {"listen": 3, "msg_ch": 3, "cc": 74, "val": 64, "prior": 121}}));
